@@ -4,13 +4,13 @@ From CppUVerif Require Import gen.Gen_C11 C11_Model.
 Import ListNotations.
 Local Open Scope N_scope.
 
-Definition nrange (n : nat) : list N := map N.of_nat (seq 0 n).
-Lemma in_nrange n k : k < N.of_nat n -> In k (nrange n).
+Definition nrange (n : N) : list N := map N.of_nat (seq 0 (N.to_nat n)).
+Lemma in_nrange n k : k < n -> In k (nrange n).
 Proof.
   intro H. unfold nrange. apply in_map_iff. exists (N.to_nat k). split; [apply N2Nat.id|].
   apply in_seq. lia.
 Qed.
-Lemma nrange_in n k : In k (nrange n) -> k < N.of_nat n.
+Lemma nrange_in n k : In k (nrange n) -> k < n.
 Proof. unfold nrange. intro H. apply in_map_iff in H. destruct H as [x [<- H]]. apply in_seq in H. lia. Qed.
 
 (* ---- partition of all 65536 words ---- *)
@@ -74,12 +74,12 @@ Lemma ev_facts_all : forallb (fun e => implb (ev_ok e) (ev_facts e)) all_events 
 Proof. vm_compute. reflexivity. Qed.
 Lemma ev_ok_in e : ev_ok e = true -> In e all_events.
 Proof.
-  unfold all_events. destruct e as [k|s c|s|]; simpl; intro H.
+  unfold all_events. destruct e as [k|s c|s|]; intro H; simpl in H.
   - apply in_or_app. left. apply in_map. apply in_nrange. apply N.ltb_lt in H. exact H.
   - apply andb_prop in H. destruct H as [_ H]. apply N.leb_le in H.
     apply in_or_app. right. destruct c.
-    + apply in_or_app. right. apply in_or_app. left. apply in_map. apply in_nrange. simpl. lia.
-    + apply in_or_app. left. apply in_map. apply in_nrange. simpl. lia.
+    + apply in_or_app. right. apply in_or_app. left. apply in_map_iff. exists s. split; [reflexivity|]. apply in_nrange. lia.
+    + apply in_or_app. left. apply in_map_iff. exists s. split; [reflexivity|]. apply in_nrange. lia.
   - apply in_or_app. right. apply in_or_app. right. apply in_or_app. right. apply in_or_app. left.
     apply in_map. apply in_nrange. apply N.ltb_lt in H. exact H.
   - repeat (apply in_or_app; right). left. reflexivity.
@@ -87,20 +87,43 @@ Qed.
 Lemma ev_facts_ok e : ev_ok e = true -> ev_facts e = true.
 Proof.
   intro H. pose proof (proj1 (forallb_forall _ _) ev_facts_all e (ev_ok_in e H)) as F.
-  rewrite H in F. exact F.
+  cbv beta in F. rewrite H in F. exact F.
 Qed.
+
+Ltac split_facts F :=
+  repeat rewrite andb_true_iff in F;
+  repeat match goal with H : _ /\ _ |- _ => destruct H end;
+  repeat match goal with
+         | H : negb _ = true |- _ => apply negb_true_iff in H
+         | H : (_ =? _) = true |- _ => apply N.eqb_eq in H
+         end.
+Ltac use_facts := repeat match goal with H : ?x = _ |- context [?x] => rewrite H end.
 
 Lemma decode_encode e : ev_ok e = true -> decode (encode e) = class_of_ev e.
 Proof.
   intro H. pose proof (ev_facts_ok e H) as F. unfold ev_facts in F. unfold decode.
-  destruct e; simpl class_of_ev;
-    repeat (apply andb_prop in F; destruct F as [F ?]);
-    repeat match goal with
-           | H : negb _ = true |- _ => apply negb_true_iff in H
-           | H : (_ =? _) = true |- _ => apply N.eqb_eq in H
-           end.
-  - rewrite F. congruence.
-  - rewrite F, H2. congruence.
-  - rewrite F, H2, H1. congruence.
-  - rewrite F, H1, H0. reflexivity.
+  destruct e; unfold class_of_ev; split_facts F; use_facts; reflexivity.
+Qed.
+
+(* SetTestFailureByStatusCode on the word of each event *)
+Lemma set_failure_encode e : ev_ok e = true ->
+  set_failure_by_status (encode e) =
+  match e with
+  | EvExit k => if k =? 0 then [] else [FExit]
+  | EvKill s _ => [FKilled s]
+  | EvStop _ => [FStopped]
+  | EvCont => []
+  end.
+Proof.
+  intro H. pose proof (ev_facts_ok e H) as F. unfold ev_facts in F. unfold set_failure_by_status.
+  destruct e; split_facts F; use_facts; try reflexivity.
+  destruct (k =? 0); reflexivity.
+Qed.
+
+Lemma ends_encode e : ev_ok e = true ->
+  (wifexited (encode e) || wifsignaled (encode e)) = match e with EvExit _ | EvKill _ _ => true | _ => false end /\
+  wifstopped (encode e) = match e with EvStop _ => true | _ => false end.
+Proof.
+  intro H. pose proof (ev_facts_ok e H) as F. unfold ev_facts in F.
+  destruct e; split_facts F; use_facts; split; reflexivity.
 Qed.
